@@ -17,7 +17,16 @@ import (
 	"time"
 )
 
-const verifRoot = "/verif"
+// verifRoot is the directory the check was started in (the ./check script changes
+// into its own directory first), so a snapshot of /verif works on its own files.
+var verifRoot = func() string {
+	if d, err := os.Getwd(); err == nil {
+		if _, err := os.Stat(filepath.Join(d, "harness")); err == nil {
+			return d
+		}
+	}
+	return "/verif"
+}()
 
 type GroupSpec struct {
 	Pkg  string `json:"pkg"`  // package directory relative to the repository
